@@ -363,6 +363,14 @@ def rabs (v : Rat) : Rat := if v < 0 then -v else v
 def maskSel {α : Type} (xs : List α) (m : List Bool) : List α :=
   (xs.zip m).filterMap fun p => if p.2 then some p.1 else none
 
+/-- `x[mask]` with a boolean mask on the FIRST axis: the elements of a 1-D array, the ROWS of a 2-D array (held as the
+list of its columns) — a different word from the column mask `M[:, mask]` = `maskSel` on the list of columns -/
+class PyMask (α : Type) where
+  sel : α → List Bool → α
+instance : PyMask (List EVal) := ⟨maskSel⟩
+instance : PyMask (List Rat) := ⟨maskSel⟩
+instance : PyMask (List (List Rat)) := ⟨fun cols m => cols.map fun c => maskSel c m⟩
+
 def vecSub (a b : List Rat) : List Rat := List.zipWith (· - ·) a b
 
 /-- `np.cross` on 3-vectors -/
@@ -442,26 +450,30 @@ look at shapes and at the bottom row only, so an array is modelled by its shape 
 its bottom row is `[0 … 0 1]`; an object under construction by its class and the array stored in `_h_matrix`. -/
 
 inductive ArrV where
-  | mat (rows cols : Int) (affineBottom : Bool)
+  | mat (rows cols : Int) (bottomZeros cornerOne : Bool)
   | vec (n : Int)
   | scalar
 deriving Repr, DecidableEq
 
 /-- `np.eye(k)` -/
-def ArrV.eye (k : Int) : ArrV := .mat k k true
+def ArrV.eye (k : Int) : ArrV := .mat k k true true
 /-- `x.shape` -/
 def ArrV.shape : ArrV → List Int
-  | .mat r c _ => [r, c]
+  | .mat r c _ _ => [r, c]
   | .vec n => [n]
   | .scalar => []
 /-- `x.size` -/
 def ArrV.size : ArrV → Int
-  | .mat r c _ => r * c
+  | .mat r c _ _ => r * c
   | .vec n => n
   | .scalar => 1
-/-- `np.allclose(x[-1, :-1], 0)` / `np.allclose(x[-1, -1], 1)` -/
-def ArrV.affineBottom : ArrV → Bool
-  | .mat _ _ b => b
+/-- `np.allclose(x[-1, :-1], 0)` -/
+def ArrV.bottomZeros : ArrV → Bool
+  | .mat _ _ b _ => b
+  | _ => false
+/-- `np.allclose(x[-1, -1], 1)` -/
+def ArrV.cornerOne : ArrV → Bool
+  | .mat _ _ _ b => b
   | _ => false
 
 structure HState where
